@@ -35,11 +35,15 @@ theorem opt_head_slot (p : List IL) (hs : slotsOwned p = true) :
        have h2 := slotsOwned_head _ _ hs (by rfl) b h1
        rw [h2] at hslot; cases hslot)
 
+theorem spanDropsK_slots (k : Nat) (r : List IL) (l : Nat) (h : slotsOwned ((Sym.Drop, l) :: r) = true) :
+    slotsOwned (spanDropsK k r).2 = true ∧ ∀ b, (spanDropsK k r).2.head? = some b → isSlot b.1 = false := by
+  fun_induction spanDropsK k r generalizing l with
+  | case1 k l' r ih => exact ih l' (slotsOwned_tail _ _ h)
+  | case2 k r hne => exact ⟨slotsOwned_tail _ _ h, slotsOwned_head _ _ h rfl⟩
+
 theorem spanDrops_slots (r : List IL) (l : Nat) (h : slotsOwned ((Sym.Drop, l) :: r) = true) :
-    slotsOwned (spanDrops r).2 = true ∧ ∀ b, (spanDrops r).2.head? = some b → isSlot b.1 = false := by
-  fun_induction spanDrops r generalizing l with
-  | case1 l' r ih => exact ih l' (slotsOwned_tail _ _ h)
-  | case2 r hne => exact ⟨slotsOwned_tail _ _ h, slotsOwned_head _ _ h rfl⟩
+    slotsOwned (spanDrops r).2 = true ∧ ∀ b, (spanDrops r).2.head? = some b → isSlot b.1 = false :=
+  spanDropsK_slots _ r l h
 
 theorem spanEq_slots (i : Sym) (hi : isOwner i = false) (r : List IL) (l : Nat) (h : slotsOwned ((i, l) :: r) = true) :
     slotsOwned (spanEq i r).2 = true ∧ ∀ b, (spanEq i r).2.head? = some b → isSlot b.1 = false := by
